@@ -67,7 +67,8 @@ def build_problem(case):
                                empty_frac=(0.25 if rng.random() < 0.6
                                            else 0.0),
                                max_rings=(5 if nring < 3 else 4),
-                               vel_range=(0.2, 6.0), length=0.5)
+                               vel_range=(0.2, 6.0), length=0.5,
+                               conv_approx=0.3)
     feats['n_ring'] = nring
     return P, feats
 
@@ -334,6 +335,7 @@ def run_case(case):
                     res.tag('xfer_table_parse_failed:' + type(e).__name__)
             for k in ('gap',):
                 res.tag('%s=%s' % (k, feats[k]))
+            res.tag('conv_approx_active=%s' % any(getattr(a.active_region, '_conv_approx', False) for a in r.assemblies))
             res.tag('n_asm=%d' % feats['n_asm'])
             res.tag('n_pos=%d' % feats['n_pos'])
             if has_lag:
